@@ -222,7 +222,7 @@ class StringsGen(Pool):
         if c == 25: return [b'TTL', k]
         if c == 26: return [b'PTTL', k]
         if c == 27: return [b'PERSIST', k]
-        if c == 28: return [b'PEXPIRE', k, r.choice([b'10000000', b'abc'])]
+        if c == 28: return [b'PEXPIRE', k, r.choice([b'10000000', b'abc', b'-1', b'0'])]
         if c == 29: return [b'SET', k, v, b'NX', b'XX']
         if c == 30: return [b'SET', k, v, b'EX']
         if c == 31: return [r.choice([b'GET', b'SET', b'APPEND', b'INCRBY', b'RENAME', b'MSET', b'GETRANGE'])] + [self.key() for _ in range(r.choice([0, 3, 4]))]
